@@ -7,6 +7,7 @@ configuration (recording length x batch size x options) and worker count, every 
 footprint is executed and the artefacts are compared with the one-worker run and with an in-memory reference.
 """
 import builtins
+import copy
 import os
 import shutil
 import sys
@@ -151,7 +152,7 @@ def options(cfg):
     kw = dict(nbatch=cfg["nbatch"], compute_rms=True, reject_channels=False, k_filter=cfg.get("k_filter", False), ns2add=cfg.get("ns2add", 0))
     pad = 4 if nsites >= 16 else 0
     kw["k_kwargs"] = {"ntr_pad": pad, "ntr_tap": 0, "lagc": 3000 if cfg.get("k_filter") else None,
-                      "butter_kwargs": {"N": 3, "Wn": 0.1, "btype": "highpass"}}
+                      "butter_kwargs": {"N": 3, "Wn": 0.04 if cfg.get("k_filter") else 0.1, "btype": "highpass"}}        # not the k-filter's own default corner
     if cfg.get("wrot") == "identity":
         kw["wrot"] = np.eye(nsites)
     elif cfg.get("wrot") == "2I":
@@ -231,9 +232,9 @@ def reference(fbin, cfg, data):
     ns, nc = sr.ns, sr.nc
     nc_out = kw.get("nc_out") or nc
     if kw["k_filter"]:
-        spatial = lambda dat: voltage.kfilt(dat, **kw["k_kwargs"])  # noqa
+        spatial = lambda dat: voltage.kfilt(dat, **copy.deepcopy(kw["k_kwargs"]))  # noqa   (a fresh copy of the settings for every batch)
     else:
-        spatial = lambda dat: voltage.car(dat, **kw["k_kwargs"])  # noqa
+        spatial = lambda dat: voltage.car(dat, **copy.deepcopy(kw["k_kwargs"]))  # noqa
     sos = scipy.signal.butter(N=3, Wn=300 / sr.fs * 2, btype="highpass", output="sos")
     taper = np.r_[0, scipy.signal.windows.cosine((TAPER - 1) * 2), 0]
     out = np.zeros((ns, nc_out), dtype=np.float64)
